@@ -120,10 +120,13 @@ def schemaJ (s : SchemaD) (incl : Bool) : J :=
 /-- `data` of `graphql(schema, introspection_query())` -/
 def introspect (s : SchemaD) (includeDeprecated : Bool) : J := .obj [("__schema", schemaJ s includeDeprecated)]
 
-/-- `data.__type` of `{ __type(name: n) { ...FullType } }`. `none`: `Schema.get_type` raises `UnknownType`,
-    which is not a `ResolverError`, so it escapes the executor (observed on the real code: the whole call raises). -/
-def typeByName (s : SchemaD) (incl : Bool) (n : String) : Option J :=
-  (s.findType n).map (fullType s incl)
+/-- `data.__type` of `{ __type(name: n) { ...FullType } }`: the resolver is `info.schema.types.get(name)`, so a
+    name that is not (or no longer) in the type map — unknown, removed / hidden type, empty string — resolves to
+    null; the built-in scalars and the introspection types are in the map and resolve. -/
+def typeByName (s : SchemaD) (incl : Bool) (n : String) : J :=
+  match s.findType n with
+  | some t => fullType s incl t
+  | none => .null
 
 /-! ### `ResolutionContext.field_definition` -/
 
